@@ -536,6 +536,182 @@ theorem tls_not_one_uri_rejected (pools : List (String × List String)) (leaf : 
     · rfl
   simp [tlsCertAuthenticate, tlsAccepts, hv]
 
+/-! ### Federated trust domains: what a SPIFFE bundle contributes (`RetrieveSpiffeBundleRootCerts`) -/
+
+theorem bundleRootsLoop_mem {keys : List BundleKey} {roots : List String} (h : bundleRootsLoop keys = some roots)
+    (r : String) : r ∈ roots ↔ ∃ k ∈ keys, k.use = x509SVID ∧ k.certs = [r] := by
+  induction keys generalizing roots with
+  | nil =>
+    simp only [bundleRootsLoop, Option.some.injEq] at h
+    subst h
+    simp
+  | cons k ks ih =>
+    unfold bundleRootsLoop at h
+    by_cases hu : k.use = x509SVID
+    · simp only [hu, if_true] at h
+      split at h
+      · rename_i c hc
+        cases hl : bundleRootsLoop ks with
+        | none => simp [hl] at h
+        | some l =>
+          simp only [hl, Option.map_some, Option.some.injEq] at h
+          subst h
+          simp only [List.mem_cons, ih hl]
+          constructor
+          · rintro (rfl | ⟨k', hk', h1, h2⟩)
+            · exact ⟨k, Or.inl rfl, hu, hc⟩
+            · exact ⟨k', Or.inr hk', h1, h2⟩
+          · rintro ⟨k', hk' | hk', h1, h2⟩
+            · subst hk'; rw [hc] at h2; simp only [List.cons.injEq, and_true] at h2; exact Or.inl h2.symm
+            · exact Or.inr ⟨k', hk', h1, h2⟩
+      · simp at h
+    · simp only [hu, if_false] at h
+      rw [ih h]
+      constructor
+      · rintro ⟨k', hk', h1, h2⟩; exact ⟨k', List.mem_cons_of_mem _ hk', h1, h2⟩
+      · rintro ⟨k', hk', h1, h2⟩
+        rcases List.mem_cons.1 hk' with rfl | hk'
+        · exact absurd h1 hu
+        · exact ⟨k', hk', h1, h2⟩
+
+/-- The trust roots a bundle contributes are exactly the single certificates of its X.509-SVID entries -
+    a certificate carried by a `jwt-svid` entry (or an entry without a use) never becomes a trust root -
+    and there is at least one. -/
+theorem bundle_roots_only_x509_svid {keys : List BundleKey} {roots : List String} (h : bundleRoots keys = some roots) :
+    roots ≠ [] ∧ ∀ r, r ∈ roots ↔ ∃ k ∈ keys, k.use = x509SVID ∧ k.certs = [r] := by
+  unfold bundleRoots at h
+  split at h
+  · simp at h
+  · rename_i hne
+    refine ⟨?_, bundleRootsLoop_mem h⟩
+    intro he
+    subst he
+    exact hne h
+
+/-- An X.509-SVID entry that does not carry exactly one certificate makes the whole bundle an error. -/
+theorem bundle_malformed_x509_entry_refused (keys : List BundleKey) (k : BundleKey) (hk : k ∈ keys)
+    (hu : k.use = x509SVID) (hc : k.certs.length ≠ 1) : bundleRoots keys = none := by
+  have hl : bundleRootsLoop keys = none := by
+    induction keys with
+    | nil => simp at hk
+    | cons k' ks ih =>
+      unfold bundleRootsLoop
+      rcases List.mem_cons.1 hk with rfl | hk'
+      · simp only [hu, if_true]
+        split
+        · rename_i c hcc; simp [hcc] at hc
+        · rfl
+      · by_cases hu' : k'.use = x509SVID
+        · simp only [hu', if_true]
+          split
+          · simp [ih hk']
+          · rfl
+        · simp only [hu', if_false]
+          exact ih hk'
+  simp [bundleRoots, hl]
+
+/-- A bundle without any X.509-SVID entry (e.g. only JWT-SVID keys, whatever certificates they carry) is refused. -/
+theorem bundle_without_x509_entry_refused (keys : List BundleKey) (h : ∀ k ∈ keys, k.use ≠ x509SVID) :
+    bundleRoots keys = none := by
+  have hl : bundleRootsLoop keys = some [] := by
+    induction keys with
+    | nil => rfl
+    | cons k ks ih =>
+      unfold bundleRootsLoop
+      simp only [h k (by simp), if_false]
+      exact ih (fun k' hk' => h k' (List.mem_cons_of_mem _ hk'))
+  simp [bundleRoots, hl]
+
+/-- Every registered root of the running server comes from a listed pool, or is the single certificate
+    of an X.509-SVID entry of a federated trust domain's bundle - registered for THAT trust domain. -/
+theorem resolved_roots_origin {src : List (String × PoolSrc)} {pools : List (String × List String)}
+    (h : resolvePools src = some pools) (td : String) (l : List String) (hp : (td, l) ∈ pools) :
+    (td, PoolSrc.roots l) ∈ src ∨
+      ∃ keys, (td, PoolSrc.bundle keys) ∈ src ∧ bundleRoots keys = some l := by
+  induction src generalizing pools with
+  | nil =>
+    simp only [resolvePools, Option.some.injEq] at h
+    subst h
+    simp at hp
+  | cons e rest ih =>
+    obtain ⟨td', s⟩ := e
+    cases s with
+    | roots l' =>
+      simp only [resolvePools] at h
+      cases hr : resolvePools rest with
+      | none => simp [hr] at h
+      | some ps =>
+        simp only [hr, Option.map_some, Option.some.injEq] at h
+        subst h
+        rcases List.mem_cons.1 hp with heq | hin
+        · simp only [Prod.mk.injEq] at heq
+          obtain ⟨rfl, rfl⟩ := heq
+          exact Or.inl (by simp)
+        · rcases ih hr hin with h1 | ⟨keys, h1, h2⟩
+          · exact Or.inl (List.mem_cons_of_mem _ h1)
+          · exact Or.inr ⟨keys, List.mem_cons_of_mem _ h1, h2⟩
+    | bundle keys' =>
+      simp only [resolvePools] at h
+      cases hb : bundleRoots keys' with
+      | none => simp [hb] at h
+      | some l' =>
+        simp only [hb] at h
+        cases hr : resolvePools rest with
+        | none => simp [hr] at h
+        | some ps =>
+          simp only [hr, Option.map_some, Option.some.injEq] at h
+          subst h
+          rcases List.mem_cons.1 hp with heq | hin
+          · simp only [Prod.mk.injEq] at heq
+            obtain ⟨rfl, rfl⟩ := heq
+            exact Or.inr ⟨keys', by simp, hb⟩
+          · rcases ih hr hin with h1 | ⟨keys, h1, h2⟩
+            · exact Or.inl (List.mem_cons_of_mem _ h1)
+            · exact Or.inr ⟨keys, List.mem_cons_of_mem _ h1, h2⟩
+
+/-- One refused bundle: no verifier, no server. -/
+theorem refused_bundle_no_server (pre post : List (String × PoolSrc)) (td : String) (keys : List BundleKey)
+    (h : bundleRoots keys = none) : resolvePools (pre ++ (td, .bundle keys) :: post) = none := by
+  induction pre with
+  | nil => simp [resolvePools, h]
+  | cons e rest ih =>
+    obtain ⟨td', s⟩ := e
+    cases s with
+    | roots l => simp [resolvePools, ih]
+    | bundle k =>
+      simp only [List.cons_append, resolvePools]
+      split
+      · rfl
+      · simp [ih]
+
+/-- Client certificates of a federated trust domain, end of the chain: the root that validates the peer is
+    registered for the trust domain of its URI SAN, and if that trust domain is configured only through
+    a bundle endpoint, the root is the single certificate of an X.509-SVID entry of that bundle. -/
+theorem tls_federated_root_is_x509_svid {src : List (String × PoolSrc)} {pools : List (String × List String)}
+    {peer : Option (PLeaf × List CACert)} {c : Caller}
+    (hres : resolvePools src = some pools) (h : tlsCertAuthenticate pools peer = some (.ok c)) :
+    ∃ leaf ints u td ns sa roots, peer = some (leaf, ints) ∧ leaf.uris = [u] ∧ parseIdentity (urlString u) = some (td, ns, sa) ∧
+      poolOf pools td = some roots ∧ chainsTo roots ints (ints.length + 1) leaf.issuer = true ∧
+      ∀ r ∈ roots, (∃ l, (td, PoolSrc.roots l) ∈ src ∧ r ∈ l) ∨
+        ∃ keys k, (td, PoolSrc.bundle keys) ∈ src ∧ k ∈ keys ∧ k.use = x509SVID ∧ k.certs = [r] := by
+  obtain ⟨leaf, ints, u, td, ns, sa, roots, hp, hu, hpi, hpool, hch, _, _⟩ := tls_cert_root_scoped h
+  refine ⟨leaf, ints, u, td, ns, sa, roots, hp, hu, hpi, hpool, hch, ?_⟩
+  intro r hr
+  obtain ⟨p, hpm, htd, hrp⟩ := (poolOf_mem hpool r).1 hr
+  obtain ⟨td', l⟩ := p
+  simp only at htd hrp
+  subst htd
+  rcases resolved_roots_origin hres td' l hpm with h1 | ⟨keys, h1, h2⟩
+  · exact Or.inl ⟨l, h1, hrp⟩
+  · obtain ⟨k, hk, hu', hc'⟩ := ((bundle_roots_only_x509_svid h2).2 r).1 hrp
+    exact Or.inr ⟨keys, k, h1, hk, hu', hc'⟩
+
+/-- e.g. a bundle with an X.509-SVID entry for R1 and a JWT-SVID entry that carries the certificate of RX: only
+    R1 is a root; a JWT-only bundle and an X.509 entry with two certificates are refused. -/
+example : bundleRoots [⟨x509SVID, ["R1"]⟩, ⟨"jwt-svid", ["RX"]⟩] = some ["R1"] ∧ bundleRoots [⟨"jwt-svid", ["RX"]⟩] = none ∧
+    bundleRoots [⟨x509SVID, ["R1", "RX"]⟩] = none ∧ bundleRoots [⟨x509SVID, ["R1"]⟩, ⟨"jwt-svid", []⟩, ⟨"", ["RX"]⟩] = some ["R1"] := by
+  decide
+
 theorem tls_cert_total (pools : List (String × List String)) (peer : Option (PLeaf × List CACert)) :
     tlsCertAuthenticate pools peer ≠ some .crash := by
   unfold tlsCertAuthenticate
